@@ -16,6 +16,11 @@
         3 if tracking ref exists: if refs/notes/ai exists
              git notes --ref=ai merge -s ours --quiet <tracking>   (errors swallowed)
           else git update-ref refs/notes/ai <tracking>             (errors swallowed)  -> MergeLocal c
+          The test (git show-ref --verify refs/notes/ai) is its own process, hence its own
+          transition TestLocal c; its result is a local variable of the syncing process
+          (pending) and the merge-or-copy acts on THAT result: update-ref overwrites whatever
+          refs/notes/ai is by then.  WHERE the test sits relative to the fetch and to the
+          rendezvous points is read from the source by tools/gen/GenSync.py (Gen/GenSync.v).
      push_authorship_notes (git push through the proxy; background thread joined in the post hook):
         1 the same fetch as (2); on failure (no notes ref on the remote) skip (2'),
         2' the same merge-or-copy as (3),
@@ -44,7 +49,7 @@
    * A non-forced push succeeds iff the remote tip is an ancestor-or-equal of the pushed tip
      (remote.c set_ref_status_for_push: REJECT_NONFASTFORWARD / REJECT_FETCH_FIRST otherwise). *)
 From Coq Require Import List NArith Bool Arith.
-From Verif Require Import Base.Str.
+From Verif Require Import Base.Str Gen.GenSync.
 Import ListNotations.
 
 Definition nid := nat.          (* position in the store *)
@@ -167,7 +172,9 @@ Definition merge_local (st : store) (l t : nid) : mres :=
   end.
 
 (* ------------------------------------------------------------------ clones, remote, steps *)
-Record clone := mkClone { local : option nid; tracking : option nid }.
+(* pending: the result of the latest existence test of refs/notes/ai by a sync process of this
+   clone that has not yet done its merge-or-copy (None: no sync process between test and merge) *)
+Record clone := mkClone { local : option nid; tracking : option nid; pending : option bool }.
 Record state := mkState {
   store_of : store;
   clones : list clone;
@@ -175,7 +182,7 @@ Record state := mkState {
   fuel_out : bool          (* an ancestor test ran out of fuel (proved unreachable) *)
 }.
 
-Definition init (n : nat) : state := mkState [] (repeat (mkClone None None) n) None false.
+Definition init (n : nat) : state := mkState [] (repeat (mkClone None None None) n) None false.
 
 Fixpoint set_nth {A} (l : list A) (i : nat) (x : A) : list A :=
   match l, i with
@@ -196,11 +203,38 @@ Definition set_fuel_out (s : state) : state :=
 Inductive step :=
 | Commit (c : nat) (k : commit) (v : note)   (* clone c writes note v for commit k *)
 | FetchTracking (c : nat)                    (* tracking := remote tip (forced) *)
-| MergeLocal (c : nat)                       (* notes merge -s ours / copy *)
+| TestLocal (c : nat)                        (* pending := does refs/notes/ai exist *)
+| MergeLocal (c : nat)                       (* notes merge -s ours / copy, by the pending test *)
 | PushRef (c : nat).                         (* non-forced push of refs/notes/ai *)
 
-Definition FetchNotes (c : nat) : list step := [FetchTracking c; MergeLocal c].
-Definition PushNotes (c : nat) : list step := [FetchTracking c; MergeLocal c; PushRef c].
+(* the sub-steps of one user-level push / fetch in the order of the code, cut at the rendezvous
+   points of the system-level check: part0 = before the pre-push fetch goes on the wire,
+   part1 = up to the point after the fetch (notes-push-merge / notes-fetch-merge),
+   part2 = up to the point before the push (notes-push), part3 = the push *)
+Definition push_part0 (c : nat) : list step := if push_test_before_fetch then [TestLocal c] else [].
+Definition push_part1 (c : nat) : list step :=
+  FetchTracking c :: (if negb push_test_before_fetch && push_test_before_sync then [TestLocal c] else []).
+Definition push_part2 (c : nat) : list step :=
+  (if push_test_before_sync then [] else [TestLocal c]) ++ [MergeLocal c].
+Definition push_part3 (c : nat) : list step := [PushRef c].
+Definition PushNotes (c : nat) : list step := push_part0 c ++ push_part1 c ++ push_part2 c ++ push_part3 c.
+
+Definition fetch_part0 (c : nat) : list step := if fetch_test_before_fetch then [TestLocal c] else [].
+Definition fetch_part1 (c : nat) : list step :=
+  FetchTracking c :: (if negb fetch_test_before_fetch && fetch_test_before_sync then [TestLocal c] else []).
+Definition fetch_part2 (c : nat) : list step :=
+  (if fetch_test_before_sync then [] else [TestLocal c]) ++ [MergeLocal c].
+Definition FetchNotes (c : nat) : list step := fetch_part0 c ++ fetch_part1 c ++ fetch_part2 c.
+
+(* a commit of the same clone while the sync's fetch is on the wire: after part0, before the fetch *)
+Definition PushNotes_commit_on_wire (c : nat) (k : commit) (v : note) : list step :=
+  push_part0 c ++ [Commit c k v] ++ push_part1 c ++ push_part2 c ++ push_part3 c.
+Definition PushNotes_commit_after_fetch (c : nat) (k : commit) (v : note) : list step :=
+  push_part0 c ++ push_part1 c ++ [Commit c k v] ++ push_part2 c ++ push_part3 c.
+Definition FetchNotes_commit_on_wire (c : nat) (k : commit) (v : note) : list step :=
+  fetch_part0 c ++ [Commit c k v] ++ fetch_part1 c ++ fetch_part2 c.
+Definition FetchNotes_commit_after_fetch (c : nat) (k : commit) (v : note) : list step :=
+  fetch_part0 c ++ fetch_part1 c ++ [Commit c k v] ++ fetch_part2 c.
 
 Inductive pres := PNoClone | PNoLocal | PCreated | PUpdated | PRejected | PFuel.
 
@@ -232,7 +266,7 @@ Definition exec (s : state) (x : step) : state :=
       | Some cl =>
           let nd := mkNode (match local cl with Some l => [l] | None => [] end)
                            (upsert k v (map_of (store_of s) (local cl))) in
-          set_clone (add_node s nd) c (mkClone (Some (length (store_of s))) (tracking cl))
+          set_clone (add_node s nd) c (mkClone (Some (length (store_of s))) (tracking cl) (pending cl))
       end
   | FetchTracking c =>
       match nth_error (clones s) c with
@@ -240,25 +274,38 @@ Definition exec (s : state) (x : step) : state :=
       | Some cl =>
           match remote s with
           | None => s
-          | Some r => set_clone s c (mkClone (local cl) (Some r))
+          | Some r => set_clone s c (mkClone (local cl) (Some r) (pending cl))
           end
+      end
+  | TestLocal c =>
+      match nth_error (clones s) c with
+      | None => s
+      | Some cl =>
+          set_clone s c (mkClone (local cl) (tracking cl)
+                                 (Some (match local cl with Some _ => true | None => false end)))
       end
   | MergeLocal c =>
       match nth_error (clones s) c with
       | None => s
       | Some cl =>
-          match tracking cl with
-          | None => s
-          | Some t =>
-              match local cl with
-              | None => set_clone s c (mkClone (Some t) (Some t))       (* copy_ref *)
-              | Some l =>
-                  match merge_local (store_of s) l t with
-                  | MKeep => s
-                  | MFF => set_clone s c (mkClone (Some t) (Some t))
-                  | MNode nd =>
-                      set_clone (add_node s nd) c (mkClone (Some (length (store_of s))) (Some t))
-                  | MFuel => set_fuel_out s
+          match pending cl with
+          | None => s                      (* no test result: not a state of the code *)
+          | Some saw =>
+              match tracking cl with
+              | None => set_clone s c (mkClone (local cl) None None)
+              | Some t =>
+                  match (if saw then local cl else None) with
+                  | None => set_clone s c (mkClone (Some t) (Some t) None)
+                      (* copy_ref = update-ref: OVERWRITES refs/notes/ai when the test saw none
+                         (and notes merge without a local ref takes the other side) *)
+                  | Some l =>
+                      match merge_local (store_of s) l t with
+                      | MKeep => set_clone s c (mkClone (Some l) (Some t) None)
+                      | MFF => set_clone s c (mkClone (Some t) (Some t) None)
+                      | MNode nd =>
+                          set_clone (add_node s nd) c (mkClone (Some (length (store_of s))) (Some t) None)
+                      | MFuel => set_fuel_out s
+                      end
                   end
               end
           end
@@ -282,6 +329,23 @@ Definition local_of (s : state) (c : nat) : option nid :=
   match nth_error (clones s) c with Some cl => local cl | None => None end.
 Definition tracking_of (s : state) (c : nat) : option nid :=
   match nth_error (clones s) c with Some cl => tracking cl | None => None end.
+
+Definition pending_of (s : state) (c : nat) : option bool :=
+  match nth_error (clones s) c with Some cl => pending cl | None => None end.
+
+(* Known_C10_K2 complement, decided by running the model: no commit of clone c falls between an
+   existence test of c that saw NO notes ref and the merge-or-copy acting on it *)
+Definition guard (s : state) (x : step) : bool :=
+  match x with
+  | Commit c _ _ => match pending_of s c with Some false => false | _ => true end
+  | _ => true
+  end.
+Fixpoint guarded (s : state) (q : list step) : bool :=
+  match q with
+  | [] => true
+  | x :: r => guard s x && guarded (exec s x) r
+  end.
+Definition no_commit_in_copy_window (n : nat) (sched : list step) : bool := guarded (init n) sched.
 
 Definition remote_map (s : state) : nmap := map_of (store_of s) (remote s).
 Definition local_map (s : state) (c : nat) : nmap := map_of (store_of s) (local_of s c).
@@ -330,15 +394,15 @@ Definition sub_keys (m1 m2 : nmap) : Prop := forall k, has_key k m1 = true -> ha
    the second push is rejected (non-fast-forward) and silently skipped. *)
 Definition race2 : list step :=
   [Commit 0 10 100; Commit 1 11 101;
-   FetchTracking 0; MergeLocal 0;
-   FetchTracking 1; MergeLocal 1;
+   FetchTracking 0; TestLocal 0; MergeLocal 0;
+   FetchTracking 1; TestLocal 1; MergeLocal 1;
    PushRef 0; PushRef 1].
 
 (* three clones, a race between 1 and 2 after 0 has pushed *)
 Definition race3 : list step :=
   [Commit 0 10 100] ++ PushNotes 0 ++
   [Commit 1 11 101; Commit 2 12 102;
-   FetchTracking 1; FetchTracking 2; MergeLocal 1; MergeLocal 2;
+   FetchTracking 1; FetchTracking 2; TestLocal 1; TestLocal 2; MergeLocal 1; MergeLocal 2;
    PushRef 2; PushRef 1].
 
 (* ------------------------------------------------------------------ the known class *)
@@ -362,6 +426,12 @@ Fixpoint Known_C10 (q : list step) : bool :=
 
 Definition rejected (o : option pres) : bool :=
   match o with Some PRejected => true | _ => false end.
+
+(* K2: clone 1 has no notes ref, the remote has clone 0's notes; clone 1 commits between its
+   existence test and the copy: update-ref overwrites the note just written *)
+Definition window2 : list step :=
+  [Commit 0 10 100] ++ PushNotes 0 ++
+  [FetchTracking 1; TestLocal 1; Commit 1 11 101; MergeLocal 1; PushRef 1].
 
 (* results in a canonical form for the driver: the distinct keys with their values *)
 Definition canon (m : nmap) : nmap :=
